@@ -26,6 +26,13 @@ def run_one(m, tier):
         if src.count(m['old']) != 1:
             return m['id'], 'PATCH-FAILED (%d matches)' % src.count(m['old']), {}, ''
         open(path, 'w', encoding='utf-8').write(src.replace(m['old'], m['new']))
+        if m.get('pre'):
+            pf, pold, pnew = m['pre']
+            pp = os.path.join(repo, pf)
+            psrc = open(pp, encoding='utf-8').read()
+            if psrc.count(pold) != 1:
+                return m['id'], 'PATCH-FAILED (pre: %d matches)' % psrc.count(pold), {}, ''
+            open(pp, 'w', encoding='utf-8').write(psrc.replace(pold, pnew))
         env = dict(os.environ)
         env.pop('TREETOOLS_VERIF', None)
         env['PYTHONPATH'] = repo
